@@ -54,7 +54,29 @@ class RFloat(ReprObj, float):
         return float.__new__(cls, 2.5)
 
 
-REPR_CLASSES = [ReprObj, RStr, ReprObj, RTuple, ReprObj, RList, RFloat]
+class Flex:
+    """one class, two kinds of instance: with a text it carries `_repr_html_` as an INSTANCE attribute (self-rendering),
+    without it has no such method (no tag child at all).  Protocol membership is a property of the instance, not of its
+    type — a classification remembered per type goes wrong on the second instance."""
+
+    def __init__(self, s=None):
+        self.s = s
+        if s is not None:
+            self._repr_html_ = lambda: s
+
+
+def _is_repr(v) -> bool:
+    return isinstance(v, ReprObj) or (isinstance(v, Flex) and v.s is not None)
+
+
+class KeptMeta(htmltools.MetadataNode):
+    """a metadata node displayed in a block: like a Tagifiable-only object it is a child kept as the object"""
+
+    def __init__(self, s):
+        self.s = s
+
+
+REPR_CLASSES = [ReprObj, RStr, Flex, ReprObj, RTuple, ReprObj, RList, Flex, RFloat]
 
 
 class Opaque:
@@ -64,7 +86,7 @@ class Opaque:
 
 # objects that are no TagChild: not str/number/None, not a list/tuple/TagList, no tagify(), no _repr_html_()
 def _invalids():
-    return [object(), {"a": 1}, b"x", {1}, 3 + 2j, Opaque(0), range(2), bytearray(b"y")]
+    return [object(), {"a": 1}, Flex(), b"x", {1}, Flex(), 3 + 2j, Opaque(0), range(2), Flex(), bytearray(b"y")]
 
 
 def _number(txt: str):
@@ -171,7 +193,7 @@ class Env:
             self.n_repr = getattr(self, "n_repr", 0) + 1
             # handed straight to Tag.append (no display-hook wrapper) a list/tuple/number subclass is, correctly,
             # treated as a list/tuple/number; only there keep to classes that are nothing but self-rendering
-            classes = [ReprObj, RStr] if direct else REPR_CLASSES
+            classes = [ReprObj, RStr, Flex] if direct else REPR_CLASSES
             return classes[(self.n_repr + len(v[1])) % len(classes)](v[1])
         if k == "tagRef":
             return self.tags[v[1]]
@@ -199,7 +221,11 @@ class Env:
 
     def obj(self, kind, name):
         self.n_obj += 1
-        x = TagifyObj(name) if kind == "f" else _both(name, self.n_obj)
+        if kind == "f" and self.n_obj % 3 == 0:
+            # "kept as the object" is also what the child rules say of a metadata node / dependency that is displayed
+            x = KeptMeta(name) if self.n_obj % 2 else htmltools.HTMLDependency(f"kept{self.n_obj}", "1.0")
+        else:
+            x = TagifyObj(name) if kind == "f" else _both(name, self.n_obj)
         self.objs[id(x)] = (kind, name)
         self.keep.append(x)
         return x
@@ -226,7 +252,7 @@ class Env:
         if isinstance(c, Tag):
             i = self.ids.get(id(c))
             return "ix foreign-tag" if i is None else f"ig {i}"
-        if isinstance(c, ReprObj):
+        if _is_repr(c):
             return "ir " + es(c.s)
         if isinstance(c, HTML):
             return "ih " + es(c.as_string())
@@ -245,7 +271,7 @@ class Env:
         if isinstance(v, Tag):
             i = self.ids.get(id(v))
             return "vx foreign-tag" if i is None else f"vg {i}"
-        if isinstance(v, ReprObj):
+        if _is_repr(v):
             return "vr " + es(v.s)
         if isinstance(v, HTML):
             return "vh " + es(v.as_string())
